@@ -23,7 +23,9 @@ def run_check(pid, repo):
 
 
 def main():
-    only = sys.argv[2:] if len(sys.argv) > 2 else None
+    import signal
+    signal.signal(signal.SIGTERM, lambda *a: sys.exit(143))      # so that the evidence files are restored
+    only = [a for a in sys.argv[1:] if a not in ("quick", "thorough")] or None
     if not only:
         from checks import modelcheck
         rc = modelcheck.main()
